@@ -61,6 +61,11 @@ def generate_ops(rng, cfg, spec, tier) -> list[dict]:
                 else rng.choice(["compute", "compute", "query", "rot"])
             fault = {"call": rng.choice([1, 1, 1, 2, 2, 3, 4, 5, 6, 8, 10, 12]), "at": rng.choice([1, 1, 2, 3, 5, 8, 20, 60]),
                      "exc": rng.choice(["InjectedFault", "MemoryError", "OSError"])}
+            if fk in ("fit", "rot") and rng.random() < 0.4:
+                # the failure hits the *last* scheduler call of the fit (the final load - the largest computation, where
+                # an out-of-memory failure is most likely): everything is defined but still lazy, and compute() finishes
+                # what fit could not; the object must then answer like a fresh one
+                fault = dict(fault, call="last")
             if fk == "fit":
                 # a task failure interrupts an eager fit on dask-backed data between / inside its scheduler calls; the
                 # object is undefined afterwards - and the next successful fit must be that of a fresh object
@@ -87,6 +92,22 @@ def generate_ops(rng, cfg, spec, tier) -> list[dict]:
                 if rng.random() < 0.75:
                     ops.append({"op": "boot_fit", "reuse": True})
                     has_boot = True
+            elif fk == "rot" and cfg["rot_params"] and fault["call"] == "last" and spec.has_transform and rng.random() < 0.6:
+                # scenario: rotator fitted and used, the model refitted on other data, the *same* rotator object fitted
+                # again - failing in its final load - and finished by compute(), then used again
+                def tq(f):
+                    fx = cfg["fits"][f]
+                    return {"q": "transform", "X": fx["X"]} if spec.family == "single" else {"q": "transform", "X": fx["X"], "Y": fx["Y"]}
+                if not has_rot:
+                    ops.append({"op": "rot_fit", "reuse": any(o["op"] == "rot_fit" for o in ops)})
+                ops.append({"op": "query", "target": "r", "q": tq(cur)})
+                nxt = rng.choice([f for f in ("F0", "F1", "F2") if f != cur])
+                ops.append({"op": "fit", "fit": nxt})
+                cur = nxt
+                has_boot = False
+                ops.append({"op": "rot_fit", "reuse": True, "fault": fault})
+                ops.append({"op": "query", "target": "r", "q": tq(cur)})
+                has_rot = False
             elif fk == "rot" and cfg["rot_params"]:
                 # rotator.fit(model) fails half-way: the rotator is unusable, the base model must be intact
                 ops.append(dict({"op": "rot_fit", "reuse": bool(has_rot) and rng.random() < 0.5, "fault": fault}))
@@ -323,6 +344,12 @@ def execute(cfg: dict, *, stop_at_first=True, trace=False) -> RunResult:
                 violate(inv, sym, f"{target}.{_qname(q)}: " + "; ".join(diffs[:3]), op)
                 return
 
+    def count_calls(fn):
+        """Dry run on a scratch object: how many scheduler calls does this operation issue?"""
+        mark = sim.mark()
+        o = oracle.capture(fn)
+        return len(sim.calls_since(mark)), o
+
     def probe(op, k=2, inv="H1"):
         if st["m_fit"] is None:
             counts["undefined_skips"] += 1
@@ -388,9 +415,19 @@ def execute(cfg: dict, *, stop_at_first=True, trace=False) -> RunResult:
                     st["m_fit"] = None      # undefined until the next successful fit
             elif kind == "fit_fault":
                 counts["refits"] += 1 if (st["m_fit"] is not None or counts["failed_fits"]) else 0
+                call_no, last = op.get("call", 1), False
+                if call_no == "last":
+                    scratch = spec.cls()(**copy.deepcopy(cfg["params"]))
+                    n_calls, dry = count_calls(lambda: models.fit_model(spec, scratch, cfg["fits"][op["fit"]], env))
+                    # (only where fit is "build everything lazily, then one final load": OPA, ExtendedEOF, POP and
+                    #  SparsePCA interleave computations with their algorithm, an interrupted eager fit of theirs is
+                    #  not a deferred fit and stays undefined)
+                    last = dry.ok and n_calls > 0 and spec.name in FINISHABLE and _final_load(sim.call_log[-1])
+                    call_no = n_calls if last else 1
+                    del scratch
                 sim.cfg.permanent_at = int(op["at"])
                 sim.cfg.permanent_exc = op.get("exc", "InjectedFault")
-                sim.cfg.permanent_call = int(op.get("call", 1))
+                sim.cfg.permanent_call = int(call_no)
                 sim.cfg.armed_calls = 0
                 out = oracle.capture(models.fit_model, spec, m, cfg["fits"][op["fit"]], env)
                 fired = not out.ok and out.exc_type == sim.cfg.permanent_exc and "injected" in out.exc_msg
@@ -404,6 +441,14 @@ def execute(cfg: dict, *, stop_at_first=True, trace=False) -> RunResult:
                     counts["fit_faults"] = counts.get("fit_faults", 0) + 1
                     counts["failed_fits"] += 1
                     st["m_fit"] = None          # undefined until the next successful fit
+                    if last:
+                        fin = oracle.capture(m.compute)
+                        res.log.append(f"  compute() after a fit that failed in its last scheduler call -> {fin.kind()}")
+                        if fin.ok:
+                            counts["finished_by_compute"] = counts.get("finished_by_compute", 0) + 1
+                            st["m_fit"] = op["fit"]
+                            st["m_computed"] = True
+                            probe(op, k=3, inv="H2")
                 else:
                     # the fit issued fewer scheduler calls / tasks than the fault position: an ordinary fit
                     rm, renv, rout = refs.model(op["fit"], False)
@@ -466,10 +511,18 @@ def execute(cfg: dict, *, stop_at_first=True, trace=False) -> RunResult:
                     else:
                         r = spec.rot_cls()(**copy.deepcopy(cfg["rot_params"]))
                     flt = op.get("fault")
+                    rlast = False
                     if flt:
+                        call_no = flt["call"]
+                        if call_no == "last":
+                            scratch = spec.rot_cls()(**copy.deepcopy(cfg["rot_params"]))
+                            n_calls, dry = count_calls(lambda: scratch.fit(m))
+                            rlast = dry.ok and n_calls > 0 and _final_load(sim.call_log[-1])
+                            call_no = n_calls if rlast else 1
+                            del scratch
                         sim.cfg.permanent_at = int(flt["at"])
                         sim.cfg.permanent_exc = flt["exc"]
-                        sim.cfg.permanent_call = int(flt["call"])
+                        sim.cfg.permanent_call = int(call_no)
                         sim.cfg.armed_calls = 0
                     out = oracle.capture(r.fit, m)
                     if flt:
@@ -482,7 +535,18 @@ def execute(cfg: dict, *, stop_at_first=True, trace=False) -> RunResult:
                         st["r_valid"] = False
                         st["r"] = r          # kept: the same rotator object may be fitted again
                         res.log.append(f"  rot_fit under an injected fault -> {out.kind()}")
-                        probe(op, k=3, inv="H4")
+                        if rlast:
+                            fin = oracle.capture(r.compute)
+                            res.log.append(f"  rotator.compute() after a fit that failed in its last scheduler call -> {fin.kind()}")
+                            if fin.ok:
+                                counts["finished_by_compute"] = counts.get("finished_by_compute", 0) + 1
+                                st.update(r_valid=True, r_key=(st["m_fit"], mirrored(st["m_computed"])), r_computed=True)
+                                rq = models.draw_queries(seeds.stream(seed, f"rotq/{op['id']}"), spec, cfg["fits"][st["m_fit"]],
+                                                         cfg["new"][st["m_fit"]], int(cfg["rot_params"]["n_modes"]), k=3,
+                                                         rotator=True, serde=False)
+                                check_queries("r", rq, op, "H2" if op.get("reuse") else "H1")
+                        if not hard():
+                            probe(op, k=3, inv="H4")
                         if not hard():
                             check_queries("m", [{"q": "params"}], op, inv="H4")
                         # (falls through to the common end-of-operation checks)
@@ -637,6 +701,15 @@ def execute(cfg: dict, *, stop_at_first=True, trace=False) -> RunResult:
     if trace:
         res.log += sim.event_log
     return res
+
+
+FINISHABLE = ("EOF", "MCA", "CCA", "RDA", "CPCCA")
+
+
+def _final_load(call: dict) -> bool:
+    """Was this scheduler call the joint load at the end of fit / rotator.fit?"""
+    site = call.get("site", "")
+    return site.startswith("xeofs/data_container/data_container.py:compute") or site.startswith("xeofs/base_model.py:compute")
 
 
 def _nonconv(o) -> bool:
